@@ -157,7 +157,7 @@ type bfsNode struct {
 func histBFS(c *core.Ctx, sb *sandbox, res *core.ShardResult, wl *core.WLog) {
 	shape := histShapes[c.Shard%len(histShapes)]
 	maxTrans := c.Q(45000, 2000000)
-	values := []string{"v1", "v2"}
+	values := []string{"v1", ""} // an edit, and a file that exists but is empty
 	edits := editOps(shape, values)
 	runs := runOps(shape, true)
 	nodes := []bfsNode{{st: newState(), parent: -1}}
@@ -311,7 +311,7 @@ func randShape(r *core.Rng) hshape {
 func randHistory(r *core.Rng, length int) hcase {
 	s := randShape(r)
 	h := hcase{Shape: s, Via: "inproc"}
-	values := []string{"v1", "v2", "v3"}
+	values := []string{"v1", "v2", "v3", ""}
 	// start from a populated project most of the time
 	if r.Chance(80) {
 		for _, f := range s.Files {
@@ -430,7 +430,7 @@ func histRandom(c *core.Ctx, sb *sandbox, res *core.ShardResult, wl *core.WLog) 
 // Orchestrator
 
 var histRules = map[string]string{
-	"C01": "states = (content of every project file, bytes of .spok/cache.json or its absence, model of each task's last success); breadth-first search from the empty project over {write v1/v2 to each file, delete it, rm -rf .spok, run every non-empty task subset plain/forced, also with the first command of each closure task failing} on 8 spokfile shapes (literal, glob, recursive glob, both, no-file task, shared file, task dependency, chain of three), each (state, run-op) executed once by the real code in-process (to a fixpoint unless the cap is reported), plus seeded random histories in a larger universe (3 values, 7 files incl. hidden and nested, random task shapes), every 20th also through the race-built binary. evaluations = spok invocations judged; non-trivial = distinct (state, run-op) transitions in which a skip was observed, resp. random histories with a skip after an edit and a re-run",
+	"C01": "states = (content of every project file, bytes of .spok/cache.json or its absence, model of each task's last success); breadth-first search from the empty project over {write 'v1' / the empty content to each file, delete it, rm -rf .spok, run every non-empty task subset plain/forced, also with the first command of each closure task failing} on 11 spokfile shapes (literal, glob, recursive glob, both, no-file task, shared file, task dependency, same glob with different literals, a file named twice, a generated input copied by a dependency, chain of three), each (state, run-op) executed once by the real code in-process (to a fixpoint unless the cap is reported), plus seeded random histories in a larger universe (3 values and the empty content, 7 files incl. hidden and nested, random task shapes), every 20th also through the race-built binary. evaluations = spok invocations judged; non-trivial = distinct (state, run-op) transitions in which a skip was observed, resp. random histories with a skip after an edit and a re-run",
 	"C02": "same search and histories as C01, judged in the converse direction (crash-free only); non-trivial = distinct transitions/histories in which the model demanded a skip inside a multi-task invocation",
 	"C14": "same search and histories as C01 (any run may carry --force); non-trivial = distinct forced transitions that hit an up-to-date task, resp. random histories with such a forced run followed by an unforced run",
 }
